@@ -235,12 +235,35 @@ Proof.
 Qed.
 
 Definition op_opts (p : op) : nat :=
-  match p with Transfer o _ | CrashT o _ _ | Reader o _ _ _ => o | _ => 0 end.
+  match p with Transfer o _ | CrashT o _ _ | Reader o _ _ _ | Reader2 o _ _ _ _ => o | _ => 0 end.
+
+(* every output of an op is good for the options its caller asked for *)
+Definition outs_good (w : world) (p : op) (outs : list outcome) : Prop :=
+  match p with
+  | Two oa ob _ _ _ => match outs with [ra; rb] => good w oa ra /\ good w ob rb | _ => False end
+  | _ => Forall (good w (op_opts p)) outs
+  end.
+
+Lemma decide_good t w o e : routes_ok t = true -> Inv w -> good w o (fst (decide t w o e)).
+Proof.
+  intros Hr Hi. pose proof (load_ok t w o e Hr Hi) as H. unfold decide.
+  destruct (load_model t w o e) as [x|m]; [rewrite H|]; cbn [fst good]; auto.
+Qed.
+
+Lemma two_good t w oa ob ea eb lb : routes_ok t = true -> Inv w ->
+  (exists ra rb, snd (two t w oa ob ea eb lb) = [ra; rb] /\ good w oa ra /\ good w ob rb) /\
+  Inv (fst (two t w oa ob ea eb lb)).
+Proof.
+  intros Hr Hi. pose proof (decide_good t w oa ea Hr Hi) as Ga. pose proof (decide_good t w ob eb Hr Hi) as Gb.
+  unfold two. destruct (decide t w oa ea) as [ra wa]. destruct (decide t w ob eb) as [rb wb].
+  cbn [fst snd] in *. split; [exists ra, rb; auto|].
+  unfold full_write. destruct wa, wb, lb; try apply Inv_partial; exact Hi.
+Qed.
 
 Lemma step_op_good t w p : routes_ok t = true -> Inv w ->
-  Forall (good w (op_opts p)) (snd (step_op t w p)) /\ Inv (fst (step_op t w p)).
+  outs_good w p (snd (step_op t w p)) /\ Inv (fst (step_op t w p)).
 Proof.
-  intros Hr Hi. destruct p as [| |o e|o e j|j|o e e' j]; cbn [step_op op_opts].
+  intros Hr Hi. destruct p as [| |o e|o e j|j|o e e' j|oa ob ea eb lb|o e ea eb j]; cbn [step_op op_opts outs_good].
   - (* Edit *) split; [constructor|]. destruct Hi as [Hc Hf]. split; [cbn; lia|]. cbn.
     destruct (cfile w) as [[bs mt]|]; [|exact I].
     destruct Hf as (Hmt & vr & o & s & suf & Hd & Hs). split; [lia|].
@@ -269,12 +292,25 @@ Proof.
     + destruct (transfer_good t w o e' Hr Hi) as (G & I' & _).
       destruct (transfer t w o e') as [w' r]. cbn [fst snd] in *.
       split; [|exact I']. constructor; [exact G|]. constructor; [exact H|constructor].
+  - (* Two *)
+    destruct (two_good t w oa ob ea eb lb Hr Hi) as ((ra & rb & E & Ga & Gb) & I'). rewrite E. auto.
+  - (* Reader2 *)
+    pose proof (load_ok t w o e Hr Hi) as H. destruct (load_model t w o e) as [x|m].
+    + rewrite H.
+      destruct (two_good t (partial_write w o j) o o ea eb true Hr (Inv_partial w o j Hi)) as ((ra & rb & E & Ga & Gb) & _).
+      unfold good in Ga, Gb. rewrite src_partial in Ga, Gb. fold (good w o) in Ga, Gb.
+      destruct (two t (partial_write w o j) o o ea eb true) as [w' rs]. cbn [fst snd] in *. subst rs.
+      unfold full_write. split; [|apply Inv_partial, Hi].
+      cbn [app]. repeat constructor; auto.
+    + destruct (two_good t w o o ea eb true Hr Hi) as ((ra & rb & E & Ga & Gb) & I').
+      destruct (two t w o o ea eb true) as [w' rs]. cbn [fst snd] in *. subst rs.
+      split; [|exact I']. cbn [app]. repeat constructor; auto.
 Qed.
 
 Fixpoint all_good (t : tables) (w : world) (h : list op) : Prop :=
   match h with
   | [] => True
-  | p :: h' => Forall (good w (op_opts p)) (snd (step_op t w p)) /\ all_good t (fst (step_op t w p)) h'
+  | p :: h' => outs_good w p (snd (step_op t w p)) /\ all_good t (fst (step_op t w p)) h'
   end.
 
 Fixpoint world_after (t : tables) (w : world) (h : list op) : world :=
@@ -316,4 +352,22 @@ Lemma reader_point t h o e e' j : routes_ok t = true ->
 Proof.
   intros Hr w. pose proof (Inv_after t h Hr w0 Inv_w0) as Hi.
   exact (proj1 (step_op_good t _ (Reader o e e' j) Hr Hi)).
+Qed.
+
+(* two callers that both finish load_model on the same reachable state (possibly a writer's prefix)
+   before either goes on: both return the correct model, whatever the order of their later steps *)
+Lemma two_point t h oa ob ea eb lb : routes_ok t = true ->
+  let w := world_after t w0 h in
+  exists ra rb, snd (step_op t w (Two oa ob ea eb lb)) = [ra; rb] /\ good w oa ra /\ good w ob rb.
+Proof.
+  intros Hr w. pose proof (Inv_after t h Hr w0 Inv_w0) as Hi.
+  exact (proj1 (two_good t _ oa ob ea eb lb Hr Hi)).
+Qed.
+
+Lemma reader2_point t h o e ea eb j : routes_ok t = true ->
+  let w := world_after t w0 h in
+  Forall (good w o) (snd (step_op t w (Reader2 o e ea eb j))).
+Proof.
+  intros Hr w. pose proof (Inv_after t h Hr w0 Inv_w0) as Hi.
+  exact (proj1 (step_op_good t _ (Reader2 o e ea eb j) Hr Hi)).
 Qed.
